@@ -118,6 +118,7 @@ Emit == (Len(prog) = Depth) => PrintT(<<"REPLAY", ToJson([prog |-> prog])>>)
 
 AllOps == {"new", "with_history", "with_last_value", "new_fn", "new_over", "new_apply", "next", "fncall", "over", "call",
            "apply", "peek", "get", "iter", "clone", "snapshot", "into_fn"}
+DeepOps == {"new", "with_last_value", "over", "peek"}
 SnapOps == {"new", "next", "over", "clone", "snapshot"}
 IndOps == {"new", "new_fn", "new_over", "next", "fncall", "over", "clone", "snapshot"}
 =============================================================================
